@@ -203,6 +203,14 @@ mod dictionary {
                 self.bytes += 1;
                 output.push([*b].as_slice())
             } else {
+                // A literal that starts with a byte in use as a tag would be read back as the
+                // dictionary entry of that tag.
+                assert!(
+                    bytes
+                        .first()
+                        .map_or(true, |tag| self.decode.get((*tag).into()).is_none()),
+                    "input starts with a byte that is in use as a dictionary tag"
+                );
                 self.bytes += bytes.len();
                 output.push(bytes)
             };
